@@ -248,6 +248,21 @@ let handle () : string =
     Printf.sprintf "pre=%d end=%s %s" (int_of_nat r.pr_preread)
       (match r.pr_end with PEnd -> "E" | PRaise _ -> "R")
       (String.concat " " (List.map pframe_result r.pr_frames))
+  | "AU" ->
+    (match api_audit_bytes (next_hex ()) with
+     | None -> "invalid"
+     | Some c -> Printf.sprintf "redundant=%s elision=%s zero=%s gstart=%s entries=%s" (string_of_n c.c_redundant)
+                   (string_of_n c.c_elision) (string_of_n c.c_zero) (string_of_n c.c_gstart) (string_of_n c.c_entries))
+  | "PS" ->
+    let ig = (match next () with "g" -> Generic | "r" -> Rdflib | _ -> failwith "integ") in
+    let grouped = next_bool () in let strict = next_bool () in
+    let k = next_int () in
+    let rec nat_of_int i = if i <= 0 then O else S (nat_of_int (i - 1)) in
+    let sched = repeat k (fun () -> nat_of_int (Stdlib.min (next_int ()) 64)) in
+    let r = api_parse_raw ig grouped strict sched (next_hex ()) in
+    Printf.sprintf "pre=%d end=%s %s" (int_of_nat r.pr_preread)
+      (match r.pr_end with PEnd -> "E" | PRaise _ -> "R")
+      (String.concat " " (List.map pframe_result r.pr_frames))
   | "HD" -> if hint (next_hex ()) then "1" else "0"
   | "WF" -> (match api_reser (next_hex ()) with None -> "unparsable" | Some b -> hex_of_bytes b)
   | c -> failwith ("unknown command " ^ c)
